@@ -362,6 +362,7 @@ def run(pid, args, seed, work, t0):
     # commands.py: what counts as a valid input must not move with the code under examination.
     ctx.generated = dict(ctx.generated, catalogue=spec_tables.catalogue())
     ctx.gen = gen.Gen(seed + 1000003, literals)
+    real.LOGMODE = 'mixed'      # calls alternate between default logging and DEBUG enabled for pamqp's loggers
     results = []
     gave_up = None
     for o in reg['oracles']:
@@ -434,6 +435,20 @@ def run(pid, args, seed, work, t0):
                 print('KNOWN-FINDING: property=%s %s' % (pid, k.get('what', '')))
             else:
                 viols.append(v)
+    real.LOGMODE = 'default'
+    for v in viols[:3]:
+        # which logging configuration does the recorded case need to reproduce? (kept in the replay file)
+        rep = v.get('replay') or {}
+        if rep.get('fn') in oracles.REPLAYS:
+            for mode in ('default', 'debug', 'mixed'):
+                try:
+                    if oracles.replay(dict(rep, logging=mode)):
+                        rep['logging'] = mode
+                        break
+                except Exception:  # noqa
+                    pass
+            else:
+                rep['reproduces'] = 'not in isolation: the case depends on what ran before it in this process'
     # ---- evidence
     evals = sum(r.evaluations for r in results) + sum(l['evaluations'] for l in lane_results)
     distinct = sum(len(r.distinct) for r in results)
@@ -516,7 +531,7 @@ def mined_strings():
     import ast
     out = set()
     repo = os.environ.get('PAMQP_REPO', '/repo')
-    for fn in ('encode.py', 'decode.py', 'base.py', 'frame.py', 'header.py', 'common.py', 'body.py', 'heartbeat.py'):
+    for fn in ('encode.py', 'decode.py', 'base.py', 'frame.py', 'header.py', 'common.py', 'body.py', 'heartbeat.py', 'commands.py', 'constants.py', 'exceptions.py'):
         try:
             tree = ast.parse(open(os.path.join(repo, 'pamqp', fn), encoding='utf-8').read())
         except Exception:  # noqa
